@@ -88,23 +88,32 @@ const CONV_USES: [(bool, bool, bool); 10] = [(true, false, false), (true, false,
 const PAIRS: [(usize, usize, &str); 5] = [(0, 1, "Yuv<->Rgb"), (2, 3, "Rgb<->LinearRgb"), (4, 5, "Yuv<->Xyb"), (6, 7, "Yuv<->LinearRgb"), (8, 9, "Rgb<->Xyb")];
 
 fn run_triple<T: Pixel>(m: MC, p: CP, t: TC) -> Result<TripleResult, String> {
-    run_triple_ss::<T>(m, p, t, (0, 0))
+    run_triple_ss::<T>(m, p, t, (0, 0), 0)
 }
 
-fn run_triple_ss<T: Pixel>(m: MC, p: CP, t: TC, ss: (u8, u8)) -> Result<TripleResult, String> {
+const SHAPES: [&str; 5] = ["3x1 / 4x4", "0x0 (no pixels)", "0x2 (no pixels)", "2x0 (no pixels)", "3x1 with NaN / +inf / -inf samples"];
+
+/// `shape`: see SHAPES
+fn run_triple_ss<T: Pixel>(m: MC, p: CP, t: TC, ss: (u8, u8), shape: u8) -> Result<TripleResult, String> {
     ev::guarded(|| {
         let depth = if std::mem::size_of::<T>() == 1 { 8 } else { 10 };
         let cfg = cfg_full(m, t, p, false, depth, ss);
         let k = 1u32 << (depth - 8);
-        let (w, h) = if ss == (0, 0) { (3usize, 1usize) } else { (4usize, 4usize) };
+        let (w, h) = match shape {
+            1 => (0usize, 0usize),
+            2 => (0, 2),
+            3 => (2, 0),
+            _ if ss == (0, 0) => (3, 1),
+            _ => (4, 4),
+        };
         let codes = [[100 * k, 120 * k, 140 * k], [16 * k, 128 * k, 128 * k], [200 * k, 90 * k, 170 * k]];
-        let yuv: Yuv<T> = if ss == (0, 0) {
+        let yuv: Yuv<T> = if ss == (0, 0) && !(1..=3).contains(&shape) {
             mk_yuv(&codes, cfg)
         } else {
             let f: Frame<T> = mk_frame(w, h, ss, 0, |pl, x, y| codes[(x + y) % 3][pl]);
-            Yuv::new(f, cfg).expect("well-formed subsampled frame")
+            Yuv::new(f, cfg).expect("well-formed frame")
         };
-        let base = [[0.2f32, 0.4, 0.6], [0.0, 0.0, 0.0], [0.9, 0.5, 0.1]];
+        let base = if shape == 4 { [[0.2f32, f32::NAN, 0.6], [f32::INFINITY, 0.0, f32::NEG_INFINITY], [0.9, 0.5, f32::NAN]] } else { [[0.2f32, 0.4, 0.6], [0.0, 0.0, 0.0], [0.9, 0.5, 0.1]] };
         let px: Vec<[f32; 3]> = (0..w * h).map(|i| base[i % 3]).collect();
         let rgb = Rgb::new(px.clone(), w, h, t, p).unwrap();
         let lin = LinearRgb::new(px.clone(), w, h).unwrap();
@@ -251,9 +260,24 @@ pub fn c14(ctx: &Ctx) {
     let mut info_double = 0u64;
     let mut evals = 0u64;
     let mut panics = 0u64;
+    let mut refused_requests = 0u64;
     let mut first_pass_results: BTreeMap<(usize, bool), Vec<Option<u64>>> = BTreeMap::new();
     for (oi, (oname, order)) in orders.iter().enumerate() {
         let mut base: BTreeMap<(String, usize, bool), u64> = BTreeMap::new();
+        if oi >= 1 {
+            // a request that the encoder refuses (odd size into 4:2:0 with a supported matrix: documented assert),
+            // alternately on this thread and on another one; what follows must be unaffected
+            let refused = move || {
+                let mc = [MC::BT709, MC::BT470BG, MC::ChromaticityDerivedNonConstantLuminance, MC::YCgCo][oi % 4];
+                let rgb = Rgb::new(vec![[0.3, 0.6, 0.1]; 9], 3, 3, TC::SRGB, CP::BT709).unwrap();
+                ev::guarded(|| Yuv::<u8>::try_from((&rgb, cfg_full(mc, TC::SRGB, CP::BT709, false, 8, (1, 1)))).is_ok())
+            };
+            let r = if oi % 2 == 1 { refused() } else { std::thread::spawn(refused).join().unwrap_or(Err("thread".into())) };
+            refused_requests += 1;
+            if matches!(r, Ok(true)) {
+                ev::note("an odd-sized 4:2:0 request was accepted");
+            }
+        }
         for &ti in order {
             let (m, p, t) = triples[ti];
             for u8s in [true, false] {
@@ -293,7 +317,7 @@ pub fn c14(ctx: &Ctx) {
     for (tidx, &(m, p, t)) in triples.iter().enumerate() {
         for ss in [(1u8, 1u8), (1, 0), (2, 2)] {
             for u8s in [true, false] {
-                let res = if u8s { run_triple_ss::<u8>(m, p, t, ss) } else { run_triple_ss::<u16>(m, p, t, ss) };
+                let res = if u8s { run_triple_ss::<u8>(m, p, t, ss, 0) } else { run_triple_ss::<u16>(m, p, t, ss, 0) };
                 sub_evals += 10;
                 match res {
                     Err(msg) => ev::violation(
@@ -320,11 +344,56 @@ pub fn c14(ctx: &Ctx) {
             }
         }
     }
+    // ... nor on the image having pixels at all, nor on the samples being finite
+    let mut shape_evals = 0u64;
+    for (tidx, &(m, p, t)) in triples.iter().enumerate() {
+        for (shape, ss) in [(1u8, (0u8, 0u8)), (2, (0, 0)), (3, (1, 1)), (1, (1, 1)), (4, (0, 0))] {
+            for u8s in [true, false] {
+                let res = if u8s { run_triple_ss::<u8>(m, p, t, ss, shape) } else { run_triple_ss::<u16>(m, p, t, ss, shape) };
+                shape_evals += 10;
+                let sname = SHAPES[shape as usize];
+                match res {
+                    Err(msg) => ev::violation(
+                        format!("C14|panic|shape{shape}|{}", ev::panic_site(&msg)),
+                        format!("a conversion panicked for ({m:?}, {p:?}, {t:?}) on an image of shape {sname}: {msg}"),
+                        tj(m, p, t, u8s).set("ss", [ss.0, ss.1]).set("shape", shape),
+                    ),
+                    Ok(r) => {
+                        if let Some(prev) = first_pass_results.get(&(tidx, u8s)) {
+                            for i in 0..10 {
+                                if prev[i].is_some() != r.r[i].is_ok() {
+                                    ev::violation(
+                                        format!("C14|content-dependent-support|{}", CONV_NAMES[i]),
+                                        format!("{} for ({m:?}, {p:?}, {t:?}): ok={} on the ordinary image but ok={} on an image of shape {sname}", CONV_NAMES[i], prev[i].is_some(), r.r[i].is_ok()),
+                                        tj(m, p, t, u8s).set("ss", [ss.0, ss.1]).set("shape", shape).set("conversion", CONV_NAMES[i]),
+                                    );
+                                    break;
+                                }
+                            }
+                        }
+                        // the reverse pairs still agree on this shape
+                        for (a, b, pname) in PAIRS {
+                            if r.r[a].is_ok() != r.r[b].is_ok() {
+                                ev::violation(
+                                    format!("C14|asymmetric-support|{pname}|shape{shape}"),
+                                    format!("{} ok={} but its reverse {} ok={} for ({m:?}, {p:?}, {t:?}) on an image of shape {sname}", CONV_NAMES[a], r.r[a].is_ok(), CONV_NAMES[b], r.r[b].is_ok()),
+                                    tj(m, p, t, u8s).set("ss", [ss.0, ss.1]).set("shape", shape).set("pair", pname),
+                                );
+                            }
+                        }
+                    }
+                }
+            }
+        }
+    }
+    evals += shape_evals;
+    ev::observe("empty_and_nonfinite_image_evaluations", shape_evals);
     evals += sub_evals;
     ev::observe("subsampled_layout_evaluations", sub_evals);
     ev::observe("triples", triples.len());
     ev::observe("visiting_orders", J::Arr(orders.iter().map(|(n, _)| J::from(n.as_str())).collect()));
     ev::observe("panics", panics);
+    ev::observe("refused_requests_between_passes", refused_requests);
     ev::observe("result_table_first_pass(conversion -> outcome: count over triples x {u8,u16})", J::Obj(table.iter().map(|(k, v)| (k.clone(), J::from(*v))).collect()));
     ev::observe("INFO_rgb_linear_double_fault_cases_with_different_errors", info_double);
     ev::sample(J::obj().set("triple", "(Identity, Reserved, PerceptualQuantizer)").set("expect", "Yuv<->Rgb Err(UnsupportedColorPrimaries|UnsupportedMatrixCoefficients), Rgb<->LinearRgb Err(UnsupportedColorPrimaries)"));
@@ -389,6 +458,8 @@ fn c15_sizes() -> Vec<(usize, usize)> {
             }
         }
     }
+    // sides beyond 16 bits (the heuristic is a function of the full dimensions), and even HD / SD sizes for the subsampled variants
+    v.extend([(2, 66112), (66176, 2), (1, 66016), (66815, 1), (2, 65536), (65536, 2), (1280, 576), (1920, 480), (2558, 2), (2560, 576), (640, 360), (1278, 576)]);
     v
 }
 
@@ -416,10 +487,16 @@ fn c15_table(ctx: &Ctx) -> (u64, u64) {
     let guessed: std::sync::Mutex<BTreeMap<String, u64>> = std::sync::Mutex::new(BTreeMap::new());
     ev::par_ranges("C15", sizes.len() as u64, 1, |_w, a, _b| {
         let (w, h) = sizes[a as usize];
-        let f8: Frame<u8> = mk_frame(w, h, (0, 0), 0, |_, x, y| ((x + y) % 200) as u32);
-        let f16: Frame<u16> = mk_frame(w, h, (0, 0), 0, |_, x, y| ((x * 3 + y) % 1000) as u32);
         let mut n = 0u64;
         let mut lg: BTreeMap<String, u64> = BTreeMap::new();
+        // layout variants (subsampling, padding on every side): the resolution is a function of the visible luma size only
+        let variants: Vec<((u8, u8), usize)> = [((0u8, 0u8), 0usize), ((0, 0), 8), ((0, 0), 48), ((1, 0), 0), ((1, 1), 0), ((1, 1), 8), ((0, 1), 48)]
+            .into_iter()
+            .filter(|(ss, pad)| w % (1 << ss.0) == 0 && h % (1 << ss.1) == 0 && (*pad == 0 || (w + 2 * pad) * (h + 2 * pad) < 3_000_000))
+            .collect();
+        for (vi, &(ss, pad)) in variants.iter().enumerate() {
+        let f8: Frame<u8> = mk_frame(w, h, ss, pad, |_, x, y| ((x + y) % 200) as u32);
+        let f16: Frame<u16> = if vi == 0 { mk_frame(w, h, ss, pad, |_, x, y| ((x * 3 + y) % 1000) as u32) } else { mk_frame(0, 0, ss, 0, |_, _, _| 0) };
         for (mi, &m) in all_m.iter().enumerate() {
             for mask in 0u8..8 {
                 let p0 = PRIMARIES[(mi + mask as usize) % 11];
@@ -429,12 +506,15 @@ fn c15_table(ctx: &Ctx) -> (u64, u64) {
                     if !u8s && depth == 10 && w * h > 200_000 {
                         continue;
                     }
-                    let base = cfg_full(m, t0, p0, mask % 2 == 0, depth, (0, 0));
+                    if vi > 0 && !u8s {
+                        continue;
+                    }
+                    let base = cfg_full(m, t0, p0, mask % 2 == 0, depth, ss);
                     let c = subsets(base, mask);
                     let want = resolve(c, w, h);
                     let got = ev::guarded(|| if u8s { Yuv::new(f8.clone(), c).map(|y| (y.config(), y.width(), y.height())) } else { Yuv::new(f16.clone(), c).map(|y| (y.config(), y.width(), y.height())) });
                     n += 1;
-                    let case = || J::obj().set("kind", "c15-table").set("w", w).set("h", h).set("cfg", cfg_json(&c)).set("u8", u8s);
+                    let case = || J::obj().set("kind", "c15-table").set("w", w).set("h", h).set("cfg", cfg_json(&c)).set("u8", u8s).set("pad", pad);
                     match got {
                         Err(msg) => ev::violation(format!("C15|panic|{}", ev::panic_site(&msg)), msg, case()),
                         Ok(Err(e)) => ev::violation("C15|yuv-new-rejected", format!("Yuv::new rejected a well-formed {w}x{h} frame: {e:?}"), case()),
@@ -459,6 +539,7 @@ fn c15_table(ctx: &Ctx) -> (u64, u64) {
                     }
                 }
             }
+        }
         }
         evals.fetch_add(n, std::sync::atomic::Ordering::Relaxed);
         let mut g = guessed.lock().unwrap();
@@ -663,13 +744,17 @@ fn c15_rgb_targets(ctx: &Ctx) -> u64 {
 pub fn c15(ctx: &Ctx) {
     let (n1, nsizes) = c15_table(ctx);
     // Part 2
-    let sizes: Vec<(usize, usize)> = vec![(2, 576), (576, 2), (2, 480), (480, 2), (2, 488), (488, 2), (1280, 2), (2, 1280), (2, 2), (16, 480), (480, 16), (16, 576), (2, 577), (1279, 2), (6, 481)];
+    let sizes: Vec<(usize, usize)> = vec![(2, 576), (576, 2), (2, 480), (480, 2), (2, 488), (488, 2), (1280, 2), (2, 1280), (2, 2), (16, 480), (480, 16), (16, 576), (2, 577), (1279, 2), (6, 481), (2, 66112), (66176, 2)];
     let all_m: Vec<MC> = ALL_MC.iter().copied().chain([MC::Unspecified]).collect();
     let mut cases = Vec::new();
     for (si, &(w, h)) in sizes.iter().enumerate() {
         for (mi, &m) in all_m.iter().enumerate() {
             for mask in 1u8..8 {
                 for (di, depth) in [8u8, 10, 12, 16].iter().enumerate() {
+                    // the two images with a side beyond 16 bits: a thin slice
+                    if w * h > 100_000 && !(*depth == 8 && mask % 2 == 1 && mi % 4 == 2) {
+                        continue;
+                    }
                     cases.push((w, h, m, mask, *depth, (si * 1000 + mi * 50 + mask as usize * 5 + di) as u64));
                 }
             }
@@ -774,14 +859,16 @@ pub fn replay(mon: &str, case: &J) -> bool {
             cj.get("primaries").and_then(J::as_str).and_then(cp_by_name).unwrap_or(CP::Unspecified),
             cj.get("full_range").and_then(J::as_bool).unwrap_or(false),
             cj.get("bit_depth").and_then(J::as_u64).unwrap_or(8) as u8,
-            (0, 0),
+            cj.get("ss").and_then(J::as_arr).map_or((0, 0), |a| (a.first().and_then(J::as_u64).unwrap_or(0) as u8, a.get(1).and_then(J::as_u64).unwrap_or(0) as u8)),
         );
+        let ss = (c.subsampling_x, c.subsampling_y);
+        let pad = case.get("pad").and_then(J::as_u64).unwrap_or(0) as usize;
         let (w, h) = (w as usize, h as usize);
         let got = if c.bit_depth == 8 {
-            let f: Frame<u8> = mk_frame(w, h, (0, 0), 0, |_, _, _| 100);
+            let f: Frame<u8> = mk_frame(w, h, ss, pad, |_, _, _| 100);
             Yuv::new(f, c).map(|y| y.config())
         } else {
-            let f: Frame<u16> = mk_frame(w, h, (0, 0), 0, |_, _, _| 100);
+            let f: Frame<u16> = mk_frame(w, h, ss, pad, |_, _, _| 100);
             Yuv::new(f, c).map(|y| y.config())
         };
         let want = resolve(c, w, h);
